@@ -611,7 +611,8 @@ func (c *Ctx) callersOf(fn *ssa.Function) []ssa.CallInstruction {
 			continue
 		}
 		for _, ci := range Calls(f) {
-			if ci.Common().StaticCallee() == fn {
+			// (a call of an instance of a generic function is a call of that function)
+			if callee := ci.Common().StaticCallee(); callee != nil && (callee == fn || callee.Origin() == fn || (fn.Origin() != nil && callee.Origin() == fn.Origin())) {
 				out = append(out, ci)
 			}
 		}
